@@ -101,6 +101,26 @@ def run(tier):
         r['_label'] = codes.label(name, size, None, None) + ' (witness only)'
         r['_cost'] = r['n'] * 4
         big.append(r)
+    # an interrupt (Ctrl-C, a timeout alarm) while d is being computed for the
+    # first time must not leave a provisional value behind
+    for name, size in (('RotatedPlanar2DCode', (3, 3)), ('Toric2DCode', (2, 3)), ('Planar3DCode', (2, 2, 2))):
+        code = codes.build(name, size)
+        real = code.get_logicals_x
+
+        def interrupted(*a, **k):
+            raise KeyboardInterrupt('injected while the logical operators are built')
+        code.get_logicals_x = interrupted
+        try:
+            code.d
+        except KeyboardInterrupt:
+            pass
+        finally:
+            code.get_logicals_x = real
+        r = codes.project(code)
+        r['id'] = len(recs) + len(big)
+        r['_label'] = codes.label(name, size, None, None) + ' (d read again after an interrupted first read)'
+        r['_cost'] = r['n'] * 4
+        big.append(r)
     wrej_all, wst = common.eval_records('C17_Witness', [r for r in recs if r['k'] > 0] + big, 'c17w',
                                         shards=16, heap='6g')
     for r in big:
